@@ -219,7 +219,8 @@ def run_one(mod, proof, ix, workdir):
                          (known is None or fo.nloops > known.get(fo.cname, 0))]
             if uncovered:
                 # (dfcc renames the body of the function under contract to <f>_wrapped_for_contract_checking)
-                unwindset = unwindset + tuple("%s%s.%d:64" % (fo.cname, suf, i) for fo in uncovered for i in range(fo.nloops)
+                cap = int(getattr(proof, "new_loop_unwind", 64))
+                unwindset = unwindset + tuple("%s%s.%d:%d" % (fo.cname, suf, i, cap) for fo in uncovered for i in range(fo.nloops)
                                               for suf in (("", "_wrapped_for_contract_checking") if fo.cname == proof.enforce else ("",)))
                 out["loops_without_contract"] = [fo.cname for fo in uncovered]
         res = P.prove(workdir, proof.name, text, entry, enforce=proof.enforce, replace=replace,
